@@ -147,13 +147,6 @@ impl<'a> Parser<'a> {
                     offset,
                 })
             }
-            t @ Token::Ampersand => {
-                let rhs = self.expr(t.lbp())?;
-                Ok(Ast::Expref {
-                    ast: Box::new(rhs),
-                    offset,
-                })
-            }
             t @ Token::Not => Ok(Ast::Not {
                 node: Box::new(self.expr(t.lbp())?),
                 offset,
@@ -327,9 +320,8 @@ impl<'a> Parser<'a> {
             &Token::Identifier(_)
             | &Token::QuotedIdentifier(_)
             | &Token::Star
-            | &Token::Lbrace
-            | &Token::Ampersand => false,
-            t => return Err(self.err(t, "Expected identifier, '*', '{', '[', '&', or '[?'", true)),
+            | &Token::Lbrace => false,
+            t => return Err(self.err(t, "Expected identifier, '*', '{', or '['", true)),
         } {
             self.advance();
             self.parse_multi_list()
@@ -478,7 +470,17 @@ impl<'a> Parser<'a> {
     fn parse_list(&mut self, closing: Token) -> Result<Vec<Ast>, JmespathError> {
         let mut nodes = vec![];
         while self.peek(0) != &closing {
-            nodes.push(self.expr(0)?);
+            // An expression reference ("&expr") is only valid as a function argument.
+            if closing == Token::Rparen && self.peek(0) == &Token::Ampersand {
+                let (offset, t) = self.advance_with_pos();
+                let rhs = self.expr(t.lbp())?;
+                nodes.push(Ast::Expref {
+                    ast: Box::new(rhs),
+                    offset,
+                });
+            } else {
+                nodes.push(self.expr(0)?);
+            }
             // Skip commas
             if self.peek(0) == &Token::Comma {
                 self.advance();
